@@ -105,9 +105,11 @@ class Exchange:
 
 
 class World:
-    def __init__(self):
+    def __init__(self, root="root"):
         # fractional price / quantity whose text has more digits than any "nice" rounding keeps
-        self.o = FIXNewOrderSingle("root", "T", "1", 0.1 + 0.2, 10.0 / 3.0)
+        self.root = root
+        self.n_req = 0
+        self.o = FIXNewOrderSingle(root, "T", "1", 0.1 + 0.2, 10.0 / 3.0)
         self.ex = Exchange()
         self.c2e = []
         self.e2c = []
@@ -152,6 +154,10 @@ class World:
         if cid in self.used:
             self.fail("ClOrdID %s used twice" % cid)
         self.used.add(cid)
+        # "a ClOrdID never used before with the same root": the j-th request of the order carries root--j
+        self.n_req += 1
+        if cid != "%s--%d" % (self.root, self.n_req):
+            self.fail("request %d of the order created with root %r carries ClOrdID %r" % (self.n_req, self.root, cid))
         if kind != "new" and m[41] != live:
             self.fail("request refers to %s, the order is live at the exchange under %s" % (m[41], live))
         if kind != "new" and (self.o.can_cancel() or self.o.can_replace()):
@@ -225,7 +231,8 @@ def run(params):
     def record(w, extra):
         for b in (w.bad + extra):
             if len(viol) < 15 and not any(v["observed"]["what"] == b["what"] for v in viol):
-                viol.append({"case": {"trace": b["trace"]}, "observed": b, "clauses": ["convergence"], "replay_family": "c17_walk"})
+                viol.append({"case": {"trace": b["trace"], "root": w.root}, "observed": b, "clauses": ["convergence"],
+                             "replay_family": "c17_walk"})
 
     def dfs(w, d):
         nonlocal n
@@ -242,7 +249,7 @@ def run(params):
             dfs(w2, d - 1)
 
     if params.get("trace"):
-        w = World()
+        w = World(params.get("root", "root"))
         for ev in params["trace"]:
             if ev not in w.enabled():
                 break
@@ -250,6 +257,20 @@ def run(params):
         extra = w.check_quiescent()
         return {"outcome": "ret", "violations": [b["what"] for b in w.bad + extra]}
     dfs(World(), depth)
+    # roots that contain the chaining marker without ending in it ("all ClOrdID roots that do not themselves end in
+    # the '--<n>' suffix"): one scripted life each - new, rejected cancel, replace, partial fill, cancel
+    script = ["new", "ex_accept", "deliver", "cancel", "ex_refuse", "deliver", "replace", "ex_accept", "deliver", "deliver",
+              "ex_partfill", "deliver", "cancel", "ex_accept", "deliver", "deliver"]
+    for root in ("a", "my--test--order", "desk--7a", "desk--7b", "2026--09--23T-x", "x--", "--1x", "r-1", "ord 1", "Ünï--9é"):
+        w = World(root)
+        for ev in script:
+            if ev not in w.enabled():
+                continue
+            w.step(ev)
+            n += 1
+            if w.bad:
+                break
+        record(w, [] if w.bad else w.check_quiescent())
     for _ in range(params.get("walks", 300)):
         w = World()
         for _ in range(params.get("walk_len", 30)):
